@@ -62,11 +62,11 @@ func init() {
 			if len(x.A) != len(y.A) {
 				return tFalse
 			}
-			r := tTrue
+			xs, ys := make([]*Term, len(x.A)), make([]*Term, len(y.A))
 			for i := range x.A {
-				r = And(r, BVCmp("=", x.A[i].(*Term), y.A[i].(*Term)))
+				xs[i], ys[i] = x.A[i].(*Term), y.A[i].(*Term)
 			}
-			return r
+			return bytesEqTerm(xs, ys)
 		},
 		"(*github.com/ElrondNetwork/elrond-go/hashing/blake2b.blake2b).Compute": func(in *Interp, fn *ssa.Function, a []Value) Value {
 			str, ok := a[1].(Str).Concrete()
@@ -338,6 +338,8 @@ type hashApp struct {
 // pairwise axioms arg_i = arg_j <=> out_i = out_j against every earlier application on this path.
 func (in *Interp) ufHash(arg Str) Value {
 	out := in.ctx.NewVar("hash", 256)
+	// no input hashes to 32 zero bytes (the value the trie uses as the empty-trie hash)
+	in.ctx.add(Not(BVCmp("=", out, BVConstU(256, 0))))
 	for _, h := range in.ctx.hashApps {
 		in.ctx.add(Eq(strEq(h.arg, arg), BVCmp("=", h.out, out)))
 	}
